@@ -317,7 +317,10 @@ def _run_case(case):
     for run in runs_ref:
         for st in run:
             for v in st.values():
-                scale = max(scale, abs(float(v)))
+                try:
+                    scale = max(scale, abs(float(v)))
+                except OverflowError:
+                    scale = math.inf
     if not math.isfinite(scale) or scale > 1e100:
         out["outcome"] = "inconclusive"
         out["notes"].append("magnitude overflow")
